@@ -214,3 +214,18 @@ prop("C05",
      assumptions=["Remove itself is never faulted (the property's 'no longer exists' presumes the deferred removal can run)",
                   "the abstract filesystem's Stat/CreateTemp/Chtimes/Remove contracts are those of the harness's in-memory filesystem; the real osFS is not exercised"],
      note=GOPRO_NOTE)
+
+prop("C14",
+     axioms="none",
+     design_ref="DESIGN.md section 5 C14 and appendix A.6",
+     technique="Rocq proof over a labelled transition system of Encode (all chunkings, all failing positions, all interleavings): no deadlock, strictly decreasing measure, error reported, no goroutine left, complete output + fault enumeration of every write index against the real encoder under a watchdog",
+     text="Theorems about an LTS of Encoder.Encode (main thread, filter goroutine, rendezvous pipe, 1-buffered channel, sticky failing output, optional gzip closer) "
+          "with the chunking universally quantified and `reachable` ranging over every schedule: every non-final reachable state has a successor, every step decreases a "
+          "measure (bounded time), a failure at write k < W makes every execution return an error, the goroutine has exited when Encode returns, a nil return means all "
+          "W writes arrived; and the pre-repair variant is refuted by a reachable stuck state (D2).  Tied to the code by running Encode against outputs failing at every k in 0..W "
+          "(plain and gzip) with a 3 s watchdog and goroutine-leak detection, and comparing returned/error/leak/completeness with the model's exhaustive exploration (small W) or the theorem's prediction.",
+     rule="for each of 6 documents (0 laps .. 5 laps x 5 fixes with 5 kB notes) x {plain, gzip}: the fault-free run (W) then k = 0..W (all k when W <= 80, else the first/last 12 and every 11th); "
+          "thorough: 40 documents, GOMAXPROCS 1/2/16, yields and sleeps injected in the output writer; distinct = distinct (document, gz, k, procs, yield); every case non-trivial",
+     assumptions=["io.Pipe rendezvous semantics, bufio/xml flushing and gzip's sticky error are modelled, not verified; scheduler fairness is assumed (the watchdog observes it)",
+                  "for W > 7 the in-Coq exploration is replaced by the proved prediction (err iff k < W)"],
+     note="Trusted: Coq kernel + vm_compute (exhaustive exploration of small instances); correspondence harness (failing writer, watchdog, runtime.Stack leak detector). Modelled not verified: io.Pipe, bufio.Reader.ReadString, encoding/xml flush points, compress/gzip, the Go scheduler.")
